@@ -75,6 +75,8 @@ def check_native(contract: dict, limit: int | None = None):
     m = importlib.import_module(mod)
     o = m
     for part in qual.split("."):
+        if part.startswith("<"):      # nested function: the native twin drives it through the enclosing function
+            break
         if part.startswith("__") and not part.endswith("__") and isinstance(o, type):
             part = "_" + o.__name__.lstrip("_") + part
         o = getattr(o, part)
